@@ -11,7 +11,7 @@ from harness import capture, corpus, corr, known, oracles, oracles_ev, paired, p
 
 STEP_FUNCS = dict(oracles.PER_STEP)
 STEP_FUNCS.update({"C08": oracles_ev.c08_step, "C09": oracles_ev.c09_step, "C10": oracles_ev.c10_step, "C11": oracles_ev.c11_step})
-RUN_FUNCS = {"c01": oracles.c01, "c05_run": oracles.c05_run, "c07_capital": oracles.c07_capital,
+RUN_FUNCS = {"c01": oracles.c01, "c05_run": oracles.c05_run, "c05_run_c20": oracles.c05_run_c20, "c07_capital": oracles.c07_capital,
              "c08_init": oracles_ev.c08_init, "c11_run": oracles_ev.c11_run}
 
 
@@ -241,11 +241,11 @@ def _gen_for(stream, seed):
                 ev["shares_series"] = True
                 ev["factor"] = rebs[0]["factor"] if rebs[0]["factor"] != 1.0 else 0.5
         r4 = random.Random(seed ^ 0x4F1)
-        if len(rebs) >= 2 and r4.random() < 0.3:
+        if rebs and seed % 3 == 0:
             # four overlapping rebuilding events: the two registered first are identical, tiny and rebuilt in one step (they
             # finish in the very same step and free the two lowest block ids), the two others are still being served
             a_ = copy.deepcopy(rebs[0])
-            f_ = 1e-7
+            f_ = r4.choice([1e-3, 1e-4])
             a_["impact"] = {k: v * f_ for k, v in rebs[-1]["impact"].items()}
             a_["house"] = None
             a_["emf"] = rebs[-1]["emf"]
